@@ -7,7 +7,6 @@ use unicode_width::UnicodeWidthStr;
 use crate::ansi::measure_text_width;
 use crate::color;
 use crate::config;
-use crate::config::delta_unreachable;
 use crate::delta::{self, State, StateMachine};
 use crate::fatal;
 use crate::format::{self, FormatStringSimple, Placeholder};
@@ -168,10 +167,10 @@ impl StateMachine<'_> {
                     self.get_next_color(Some(key_color))
                 }
             }
-            (None, _, true) => delta_unreachable("is_repeat cannot be true when key has no color."),
-            (Some(_), None, _) => {
-                delta_unreachable("There must be a previous key if the key has a color.")
-            }
+            // A color taken from git's own coloring (see blame_metadata_style) is not recorded, so
+            // the previous line's key, or a repeated key, may have no color.
+            (None, _, true) => self.get_next_color(None),
+            (Some(key_color), None, _) => key_color.to_owned(),
         }
     }
 
